@@ -80,7 +80,10 @@ SHAPES = [
     ("genvar:call", "any(f() for f in [r.c])", True), ("genvar:attr", "any(f.m() for f in [r.c])", True),
     ("genvar:method", "any(f() for f in [r.s.upper])", True), ("genvar:all", "all(f() for f in (r.c, r.c))", True),
     ("genvar:nested", "any(any(g() for g in [f]) for f in [r.c])", True),
-    ("genvar:cond", "any(1 for f in [r.c] if f())", True), ("genvar:iter", "any(1 for f in [r.c] for g in f())", True),
+    ("genvar:cond", "any(1 for f in [r.c] if f())", True),
+    # a generator expression consumed by an operator, with no call evaluated before it
+    ("genvar:in", "1 in (f() for f in [r.c])", True), ("genvar:in_method", "'ABC' in (f() for f in [r.s.upper])", True),
+    ("genvar:notin", "1 not in (f() for f in [r.c])", True), ("genvar:in_attr", "1 in (f.m() for f in [r.c])", True), ("genvar:iter", "any(1 for f in [r.c] for g in f())", True),
     # --- generator variables named like whitelisted types / helpers / namespace keys
     ("gentype:path", "any(path() for path in [r.c])", True), ("gentype:string", "any(string('x') == 'x' for string in [r.c])", False),
     ("gentype:uri", "any(uri() for uri in [r.s.upper])", True), ("gentype:net", "any(net.ipaddress('1.2.3.4') == '1.2.3.4' for net in [r.c])", False),
@@ -99,9 +102,14 @@ SHAPES = [
     ("dunder:subclasses", "str.__subclasses__()", True), ("dunder:dict", "r.__dict__", True),
     ("dunder:type", "Type.__class__", True), ("dunder:init", "r.c.__init__('x')", True),
     ("dunder:mid", "r.__class__.__mro__", True),
+    # names that begin with two underscores but do not end with them (name-mangled / private attributes)
+    ("dunder:leading_only", "r.c.__token", True), ("dunder:leading_only2", "r.c.__state_", True),
+    ("dunder:leading_only3", "r.__private", True), ("dunder:leading_gen", "any(x.__tok for x in [r.c])", True),
+    ("dunder:leading_helper", "lower(r.c.__token)", True), ("dunder:triple", "r.c.___x", True),
     # --- a bare double-underscore *name*: not in the namespace; must be refused before the whitelist-module fallback
     ("dundername:class", "__class__", True), ("dundername:dict", "__dict__", True),
     ("dundername:attr", "__class__.gettypename", True), ("dundername:init", "__init__", True),
+    ("dundername:leading_only", "__token", True), ("dundername:leading_only2", "__x_.y", True),
 ]
 BENIGN = [
     ("ok:upper", "upper(r.s)", False), ("ok:lower_cmp", "lower(r.s) == 'abc'", False), ("ok:str", "str(r.n)", False),
